@@ -1,4 +1,6 @@
-"""C08: pairing_heap -- top is always a maximum; pop/remove take out exactly one element; hooks are reset."""
+"""C08: pairing_heap -- top is always a maximum; pop/remove take out exactly one element; hooks are reset.
+Properties_C08.v: theorems about the functional model; Properties_C08_ptr.v: the pointer-level transliteration of
+pairing_heap.hpp refines the functional model (so the theorems hold of the pointer surgery itself)."""
 import sys
 import vlib
 from comp.pairing import check as pairing
@@ -9,7 +11,7 @@ def main():
     c.trusted = ["Coq 8.16.1 kernel (coqc; vm_compute only in Examples)"] + pairing.TRUSTED
     c.assumptions = pairing.ASSUMPTIONS
     c.kind_filter = lambda k: k not in vlib.LIFETIME_KINDS     # pairing_heap owns nothing; no lifetime kinds are produced
-    c.prove(["C08"])
+    c.prove(["C08", "C08_ptr"])
     pairing.run(c)
     sys.exit(c.finish())
 
